@@ -37,6 +37,13 @@ def check(ctx: Ctx, rep: Report):
         _shared_C07_R4(ctx, rep, "C07.R4", _ci)
     rep.rule("C07.R2", "fragments are joined only on exact remaining length, then validated as a whole; buffer cleared; no other reader", 4)
     rep.rule("C07.R3", "stored remainder = expected - length of the caught exception, timer re-armed; raise sites announce (len(data), length byte + overhead) with the header present", 7)
+    rep.rule("C07.R5", "the wait for the second fragment lasts the configured timeout: no timer of an earlier request is still armed when a request ends (shared with C05.R4)", 6)
+    from .c05 import r4 as _c05_r4
+    from ..core import Report as _Report
+    sub = _Report("C05", rep.tier)
+    _c05_r4(ctx, sub)
+    for o in sub.obligations:
+        rep.obligations.append(type(o)("C07.R5", o.key, o.where, o.what, o.status, o.detail))
     prog = ctx.prog
     fams = ctx.memo("families", lambda: families(prog, ctx.res))
     for ci in proto_classes(ctx):
